@@ -17,7 +17,10 @@ P = {
                  "C06_current_rules_indexed", "C06_same_source_constraint",
                  "C06_F1_refuted", "C06_F2_refuted", "C06_F6_refuted",
                  "C06_F3_pinned_refuted", "C06_F4_pinned_refuted", "C06_F4_pinned_panic", "C06_F5_pinned_refuted",
-                 "C06_repaired_examples", "C06_nonvacuous"],
+                 "C06_repaired_examples", "C06_nonvacuous",
+                 "C06_tree_add_refines", "C06_tree_delete_refines", "C06_radix_delete_refines_machine",
+                 "C06_tree_invariant", "C06_tree_refines_index", "C06_tree_history_equals_fresh",
+                 "C06_tree_never_panics", "C06_tree_prune_merge_example"],
     "streams": [{
         "name": "history", "pkg": "./internal/rules", "test": "TestVerifC06",
         "overlay": {"internal/rules/zz_verif_c06_test.go": "c06/c06_test.go"},
@@ -42,10 +45,11 @@ P = {
             "the history contains an accepted update that changes the definition of an existing rule; distinct by hash of the generated input",
     "anchors": ["internal/rules/repository_impl.go", "internal/x/radixtree/tree.go",
                 "internal/rules/ruleset_processor_impl.go", "internal/rules/rule_impl.go"],
-    "trusted": ["the theorems are about the repository over the ABSTRACT index (pattern -> values, flag; no node compression; a node's "
-                "wildcard key names are those of its values); tree.go is transcribed function by function into C06/Tree.v "
-                "(executable, no proofs) and the agreement tree = abstract index is checked by evaluation on every generated history, "
-                "not proved",
+    "trusted": ["tree.go is transcribed function by function into C06/Tree.v (addNode, splitCommonPrefix, delNode, deleteChild, "
+                "findNode; executable) and compared with the implementation on every generated history; that this transcription "
+                "refines the abstract index (pattern -> values, flag) the main theorems are stated over is now PROVED for the tree "
+                "as it is (all_fix), for every history (C06_tree_refines_index): no longer trusted.  The abstract index is still "
+                "evaluated next to the tree on every run (a redundant check since the proof)",
                 "route conditions are the real methodMatcher (independent of key names and captured values); captures/key names "
                 "delivered to conditions are property C03",
                 "rule hash modelled by its pre-image (the whole definition); object identity of rules and routes (pointer comparison "
@@ -70,10 +74,19 @@ P = {
                   "~1200 (quick) / 24000 (thorough) generated histories per run through the real processor+repository and comparing, after "
                   "every prefix, accept/reject/crash and lookups with the transcribed tree and the abstract model; the property predicate "
                   "itself is model-free (accepted iff the specification says so; history repository = freshly built REAL repository, rule "
-                  "and captures) and is judged per prefix.",
-    "level_note": "Partial: (1) the theorems are proved for the repository over the abstract pattern-map index; the step from the "
-                  "transcribed compressed radix tree (C06/Tree.v) to that index is tested on every run, not proved; both sides of the "
-                  "main equation use the same model lookup/add, so a wrong lookup is the business of C02/C03 and of the differential run. "
+                  "and captures) and is judged per prefix.  The theorems are carried down to the transcribed COMPRESSED RADIX TREE "
+                  "(node compression, prefix splits, deleteChild's pruning and merging, wildcard key names): a tree invariant "
+                  "(Radix wfb + the `shape` Delete needs + kind flags = slots) is preserved by Add and Delete, Delete on the tree is "
+                  "delete on the abstraction of the tree, and for EVERY history the repository over the tree has the same known rules, "
+                  "the same outcome of every operation and the same rule for every lookup as the repository over the abstract index "
+                  "(C06_tree_refines_index); hence lookups in the tree after a history = lookups in a freshly loaded tree "
+                  "(C06_tree_history_equals_fresh), and the tree code never panics (C06_tree_never_panics).",
+    "level_note": "Partial: (1) the step from the transcribed compressed radix tree (C06/Tree.v) to the abstract index is proved for the "
+                  "code as it is now (all_fix) only; for the pinned commit (no_fix: C06-F3/F5 live in node compression / stale key names) "
+                  "tree and index are related by the differential run and the `_pinned_refuted` witnesses only.  Static-child priorities "
+                  "(sortStaticChildren) are not in the transcription.  Both sides of the main equation use the same model lookup/add, so "
+                  "a wrong lookup is the business of C02/C03 (Radix/TreeProofs.v: findNode = the specification's lookup) and of the "
+                  "differential run. "
                   "(2) 'exactly' is proved for the rule found; captures/key names are compared history-vs-fresh on the implementation "
                   "only.  (3) The order clause of the statement is refuted (C06-F1), not proved; inside `dirty` only the membership-level "
                   "theorems hold.  (4) That a rejected change leaves no trace is true of the model by construction (work on a value); "
